@@ -549,8 +549,14 @@ def check_recall(c):
         call(a4, k4)
         if _edit(a4) + _edit(k4) == 0:
             continue
+        for out_arg in ('cache', 'info'):            # output arguments filled by the first call are not part of "the same arguments"
+            if isinstance(k4.get(out_arg), dict):
+                k4[out_arg] = type(k4[out_arg])()
         s4, e4 = attempt(a4, k4)
-        a5, k5 = _clone(a4), _clone(k4)
+        # the reference: NEW objects with the same values AND the same memory layout (a contiguous copy of a strided view may differ in the
+        # last bit inside BLAS): a fresh argument set taken through the same edit
+        _, a5, k5 = fresh(ci)
+        _edit(a5), _edit(k5)
         s5, e5 = attempt(a5, k5)
         if e5 is not None and e4 is not None:
             res.skip('edited arguments are rejected (%s %s)' % (name, label))
